@@ -1,9 +1,12 @@
 From Coq Require Import List NArith Bool Arith.
-From AMV Require Import Base.ListSet Model.Schema Model.Machine Run.EvalHist Spec.C01.
+From AMV Require Import Base.ListSet Model.Schema Model.Machine Run.EvalHist Spec.C01 Spec.C01f.
 From AMV Require Export Spec.C01r.
 Import ListNotations.
 
-Definition violations (k : hcase) : list N := nodup N.eq_dec (c01_codes (h_schema k) (h_obs k)).
+(* a history whose handler script contains a fault is judged by the every-history
+   part of the predicate (Spec/C01f.v, theorem c01_judge_run) *)
+Definition violations (k : hcase) : list N :=
+  nodup N.eq_dec (c01_judge (h_schema k) (h_actions k) (h_obs k)).
 Inductive c01case := C01H (k : hcase) | C01R (r : rcase).
 
 Definition check_all (cs : list (N * c01case)) : list (N * N * N) :=
